@@ -1,4 +1,5 @@
-import Refinery.Model.Payload
+import Refinery.Lemmas.Payload
+import Refinery.Lemmas.PayloadFixed
 /-!
 # C21 — trace identity and root status follow the ID-field configuration
 
@@ -23,933 +24,7 @@ one of Refinery's reserved metadata names), `Disjoint` (no name is both a trace-
 name), unique keys, and — for client events — no `meta.refinery.root` / `meta.refinery.probe` key.
 -/
 namespace Refinery.Props.C21
-open Refinery Refinery.Model.Payload
-
-/-! ## The reserved table (regenerated from the code): side conditions by evaluation -/
-
-theorem table_prefix : ∀ e ∈ metaTable, hasPrefix "meta." e.1 = true := by decide
-
-theorem prefKind_eq (k : String) : prefKind k = tableKind k := by
-  unfold prefKind
-  split
-  · rfl
-  · rename_i h
-    unfold tableKind
-    cases hg : AList.get metaTable k with
-    | none => rfl
-    | some v =>
-      have := table_prefix _ (AList.mem_of_get hg)
-      simp_all
-
-theorem kind_kTid : tableKind kTid = some .str := by decide
-theorem kind_kSig : tableKind kSig = some .str := by decide
-theorem kind_kRoot : tableKind kRoot = some .bool := by decide
-theorem kind_kProbe : tableKind kProbe = some .bool := by decide
-theorem kind_kUA : tableKind kUA = some .str := by decide
-
-theorem keys_ne : kTid ≠ kSig ∧ kTid ≠ kRoot ∧ kTid ≠ kProbe ∧ kSig ≠ kRoot ∧ kSig ≠ kProbe ∧
-    kRoot ≠ kProbe ∧ kUA ≠ kTid ∧ kUA ≠ kSig ∧ kUA ≠ kRoot ∧ kUA ≠ kProbe := by decide
-
-/-- No configured trace-ID, parent-ID or sampling-key field name is a reserved metadata name. -/
-def Sane (cfg : Cfg) : Prop :=
-  ∀ k, (k ∈ cfg.tn ∨ k ∈ cfg.pn ∨ k ∈ cfg.sk) → tableKind k = none
-
-/-! ## The identity part of `extractCriticalFieldsFromBytes`, isolated -/
-
-def idStep (cfg : Cfg) (s : IdSt) (kv : String × Val) : Option IdSt :=
-  match metaDecode kv.1 kv.2 with
-  | .err => none
-  | .done mv => some (idPut s kv.1 mv)
-  | .skip => some ((idFall cfg s kv.1 kv.2).getD s)
-
-def idFold (cfg : Cfg) : IdSt → List (String × Val) → Option IdSt
-  | s, [] => some s
-  | s, kv :: t =>
-    match idStep cfg s kv with
-    | none => none
-    | some s' => idFold cfg s' t
-
-theorem put_id (m : Meta) (k : String) (v : MVal) : (m.put k v).id = idPut m.id k v := by
-  unfold Meta.put
-  split
-  · rfl
-  · rename_i h
-    simp only [isIdKey, Bool.or_eq_true, decide_eq_true_eq, not_or] at h
-    simp [idPut, h.1.1.1, h.1.1.2, h.1.2, h.2]
-
-theorem wireKey_id {sk : List String} (hsk : ∀ k ∈ sk, tableKind k = none) (p : Pay) (f : Nat)
-    (k : String) (v : Val) : (wireKey sk p f k v).1.md.id = p.md.id := by
-  unfold wireKey
-  split
-  · rename_i h
-    simp [Pay.set, hsk k h.2.1]
-  · rfl
-
-theorem wstep_id {cfg : Cfg} {sk : List String} (hsk : ∀ k ∈ sk, tableKind k = none)
-    (st : Pay × Nat) (kv : String × Val) :
-    (wstep cfg sk st kv).map (fun r => r.1.md.id) = idStep cfg st.1.md.id kv := by
-  unfold wstep idStep
-  generalize metaDecode kv.1 kv.2 = d
-  cases d with
-  | err => rfl
-  | done mv => simp [put_id]
-  | skip =>
-    simp only
-    generalize idFall cfg st.1.md.id kv.1 kv.2 = o
-    cases o with
-    | some i => simp
-    | none => simp [wireKey_id hsk]
-
-theorem wfold_id {cfg : Cfg} {sk : List String} (hsk : ∀ k ∈ sk, tableKind k = none) :
-    ∀ (fs : List (String × Val)) (st : Pay × Nat),
-      (wfold cfg sk st fs).map (fun r => r.1.md.id) = idFold cfg st.1.md.id fs
-  | [], st => rfl
-  | kv :: t, st => by
-    have h := wstep_id (cfg := cfg) hsk st kv
-    unfold wfold idFold
-    cases hw : wstep cfg sk st kv with
-    | none =>
-      rw [hw] at h
-      simp only [Option.map_none] at h
-      rw [← h]
-      rfl
-    | some st' =>
-      rw [hw] at h
-      simp only [Option.map_some] at h
-      rw [← h]
-      exact wfold_id hsk t st'
-
-/-! ## What the identity part computes, as one plain function of the entry -/
-
-def specStep (cfg : Cfg) (s : IdSt) (kv : String × Val) : IdSt :=
-  if kv.1 = kTid then (match kv.2 with | .str x => { s with tid := x } | _ => s)
-  else if kv.1 = kSig then (match kv.2 with | .str x => { s with sig := x } | _ => s)
-  else if kv.1 = kRoot then (match kv.2 with | .bool b => { s with root := some b } | _ => s)
-  else if kv.1 = kProbe then (match kv.2 with | .bool b => { s with probe := some b } | _ => s)
-  else match kv.2 with
-    | .str x =>
-      if s.tid = "" ∧ kv.1 ∈ cfg.tn then { s with tid := x }
-      else if kv.1 ∈ cfg.pn ∧ x ≠ "" then { s with root := some false }
-      else s
-    | _ => s
-
-def specFold (cfg : Cfg) (s : IdSt) (fs : List (String × Val)) : IdSt := fs.foldl (specStep cfg) s
-
-theorem idFall_not_cfg {cfg : Cfg} {k : String} (h1 : k ∉ cfg.tn) (h2 : k ∉ cfg.pn) (s : IdSt) (v : Val) :
-    idFall cfg s k v = none := by
-  cases v <;> simp [idFall, h1, h2]
-
-theorem specElse_not_cfg {cfg : Cfg} {k : String} (h1 : k ∉ cfg.tn) (h2 : k ∉ cfg.pn) (s : IdSt) (v : Val) :
-    (match v with
-      | .str x => if s.tid = "" ∧ k ∈ cfg.tn then { s with tid := x }
-          else if k ∈ cfg.pn ∧ x ≠ "" then { s with root := some false } else s
-      | _ => s) = s := by
-  cases v <;> simp [h1, h2]
-
-theorem prefKind_kTid : prefKind kTid = some .str := by rw [prefKind_eq, kind_kTid]
-theorem prefKind_kSig : prefKind kSig = some .str := by rw [prefKind_eq, kind_kSig]
-theorem prefKind_kRoot : prefKind kRoot = some .bool := by rw [prefKind_eq, kind_kRoot]
-theorem prefKind_kProbe : prefKind kProbe = some .bool := by rw [prefKind_eq, kind_kProbe]
-
-theorem idStep_spec {cfg : Cfg} (hs : Sane cfg) {s s1 : IdSt} {kv : String × Val}
-    (h : idStep cfg s kv = some s1) : s1 = specStep cfg s kv := by
-  obtain ⟨k, v⟩ := kv
-  unfold idStep at h
-  simp only at h
-  cases hk : tableKind k with
-  | none =>
-    have hp : prefKind k = none := by rw [prefKind_eq, hk]
-    have hd : metaDecode k v = .skip := by simp [metaDecode, hp]
-    rw [hd] at h
-    simp only [Option.some.injEq] at h
-    subst h
-    have h1 : k ≠ kTid := by intro e; rw [e, kind_kTid] at hk; cases hk
-    have h2 : k ≠ kSig := by intro e; rw [e, kind_kSig] at hk; cases hk
-    have h3 : k ≠ kRoot := by intro e; rw [e, kind_kRoot] at hk; cases hk
-    have h4 : k ≠ kProbe := by intro e; rw [e, kind_kProbe] at hk; cases hk
-    unfold specStep
-    simp only [h1, h2, h3, h4, if_false]
-    cases v <;> simp only [idFall, Option.getD_none]
-    rename_i x
-    by_cases c1 : s.tid = "" ∧ k ∈ cfg.tn
-    · simp [c1]
-    · by_cases c2 : k ∈ cfg.pn <;> by_cases c3 : x = "" <;> simp [c1, c2, c3]
-  | some kd =>
-    have hp : prefKind k = some kd := by rw [prefKind_eq, hk]
-    have hn1 : k ∉ cfg.tn := fun hm => by have := hs k (Or.inl hm); rw [this] at hk; cases hk
-    have hn2 : k ∉ cfg.pn := fun hm => by have := hs k (Or.inr (Or.inl hm)); rw [this] at hk; cases hk
-    have hf : idFall cfg s k v = none := idFall_not_cfg hn1 hn2 s v
-    have hspecElse := specElse_not_cfg hn1 hn2 s v
-    obtain ⟨n1, n2, n3, n4, n5, n6, _⟩ := keys_ne
-    by_cases e1 : k = kTid
-    · subst e1
-      have : kd = .str := by rw [kind_kTid] at hk; cases hk; rfl
-      subst this
-      cases v <;> simp [metaDecode, hp, hf, idPut, specStep] at h ⊢ <;> exact h.symm
-    · by_cases e2 : k = kSig
-      · subst e2
-        have : kd = .str := by rw [kind_kSig] at hk; cases hk; rfl
-        subst this
-        cases v <;> simp [metaDecode, hp, hf, idPut, specStep, Ne.symm n1] at h ⊢ <;> exact h.symm
-      · by_cases e3 : k = kRoot
-        · subst e3
-          have : kd = .bool := by rw [kind_kRoot] at hk; cases hk; rfl
-          subst this
-          cases v <;> simp [metaDecode, hp, hf, idPut, specStep, Ne.symm n2, Ne.symm n4] at h ⊢ <;> exact h.symm
-        · by_cases e4 : k = kProbe
-          · subst e4
-            have : kd = .bool := by rw [kind_kProbe] at hk; cases hk; rfl
-            subst this
-            cases v <;> simp [metaDecode, hp, hf, idPut, specStep, Ne.symm n3, Ne.symm n5, Ne.symm n6] at h ⊢ <;>
-              exact h.symm
-          · have hput : ∀ mv, idPut s k mv = s := by intro mv; simp [idPut, e1, e2, e3, e4]
-            have hspec : specStep cfg s (k, v) = s := by
-              unfold specStep
-              simp only [e1, e2, e3, e4, if_false]
-              exact hspecElse
-            rw [hspec]
-            cases hd : metaDecode k v with
-            | err => rw [hd] at h; simp at h
-            | done mv => rw [hd] at h; simp [hput] at h; exact h.symm
-            | skip => rw [hd] at h; simp [hf] at h; exact h.symm
-
-theorem idFold_spec {cfg : Cfg} (hs : Sane cfg) :
-    ∀ (fs : List (String × Val)) (s s' : IdSt), idFold cfg s fs = some s' → s' = specFold cfg s fs
-  | [], s, s', h => by simp [idFold] at h; simp [specFold, h]
-  | kv :: t, s, s', h => by
-    unfold idFold at h
-    cases h1 : idStep cfg s kv with
-    | none => rw [h1] at h; simp at h
-    | some s1 =>
-      rw [h1] at h
-      have := idStep_spec hs h1
-      subst this
-      have := idFold_spec hs t _ _ h
-      simpa [specFold] using this
-
-
-/-! ## From the ingestion functions to `specFold` -/
-
-/-- the identity state every path ends with: `root` starts `true`, the entries are folded in the
-order the path visits them, a log record has its root flag unset -/
-def identOf (cfg : Cfg) (fs : List (String × Val)) : IdSt :=
-  finishLogId (specFold cfg (initRootId {}) fs)
-
-theorem sane_sk {cfg : Cfg} (hs : Sane cfg) : ∀ k ∈ cfg.sk, tableKind k = none :=
-  fun k hk => hs k (Or.inr (Or.inr hk))
-
-theorem extractWire_id {cfg : Cfg} (hs : Sane cfg) {sk : List String} (hsk : ∀ k ∈ sk, tableKind k = none)
-    {p0 p1 : Pay} {fs : List (String × Val)} (h : extractWire cfg sk p0 fs = some p1) :
-    p1.md.id = finishLogId (specFold cfg (initRootId p0.md.id) fs) := by
-  unfold extractWire at h
-  cases hw : wfold cfg sk ({ p0 with md := initRoot p0.md, isEmpty := p0.isEmpty || fs.isEmpty }, 0) fs with
-  | none => rw [hw] at h; simp at h
-  | some r =>
-    obtain ⟨q, found⟩ := r
-    rw [hw] at h
-    simp only [Option.some.injEq] at h
-    subst h
-    have h1 := wfold_id (cfg := cfg) hsk fs ({ p0 with md := initRoot p0.md, isEmpty := p0.isEmpty || fs.isEmpty }, 0)
-    rw [hw] at h1
-    simp only [Option.map_some] at h1
-    have h2 := idFold_spec hs _ _ _ h1.symm
-    by_cases c : found < sk.length <;> simp [c, finishLog, h2, initRoot]
-
-theorem addUA_id (cfg : Cfg) (p : Pay) : (addUA cfg p).md.id = p.md.id := by
-  obtain ⟨_, _, _, _, _, _, u1, u2, u3, u4⟩ := keys_ne
-  unfold addUA
-  split
-  · simp [put_id, idPut, u1, u2, u3, u4]
-  · rfl
-
-theorem addUA_extracted (cfg : Cfg) (p : Pay) : (addUA cfg p).extracted = p.extracted := by
-  unfold addUA; split <;> rfl
-
-theorem addUA_raw (cfg : Cfg) (p : Pay) : (addUA cfg p).raw = p.raw := by
-  unfold addUA; split <;> rfl
-
-def wireOutcome (cfg : Cfg) (fs : List (String × Val)) : Outcome := outcomeOf (ingestBatch cfg fs)
-def metaOnlyOutcome (cfg : Cfg) (fs : List (String × Val)) : Outcome := outcomeOf (ingestMeta cfg fs)
-/-- `/1/events`: `ord` is the memoised map in the order `ExtractMetadata` happens to range over it -/
-def mapOutcome (cfg : Cfg) (f2i : Nat → Int) (ord : List (String × Val)) : Outcome :=
-  outcomeOf (extractMap cfg f2i (addUA cfg { memo := ord }) ord)
-
-theorem wire_ident {cfg : Cfg} (hs : Sane cfg) {fs : List (String × Val)} (h : wireOutcome cfg fs ≠ .err) :
-    wireOutcome cfg fs = outcomeId (identOf cfg fs) := by
-  unfold wireOutcome at h ⊢
-  unfold ingestBatch at h ⊢
-  cases he : extractWire cfg cfg.sk {} fs with
-  | none => rw [he] at h; simp [outcomeOf] at h
-  | some p1 =>
-    rw [he] at h
-    simp only at h ⊢
-    by_cases c : p1.isEmpty = true
-    · simp [c, outcomeOf] at h
-    · simp only [c]
-      simp only [outcomeOf, outcome, addUA_id, Bool.false_eq_true, if_false]
-      rw [extractWire_id hs (sane_sk hs) he]
-      rfl
-
-theorem metaOnly_ident {cfg : Cfg} (hs : Sane cfg) {fs : List (String × Val)} (h : metaOnlyOutcome cfg fs ≠ .err) :
-    metaOnlyOutcome cfg fs = outcomeId (identOf cfg fs) := by
-  unfold metaOnlyOutcome at h ⊢
-  unfold ingestMeta at h ⊢
-  cases he : extractWire cfg [] {} fs with
-  | none => rw [he] at h; simp [outcomeOf] at h
-  | some p1 =>
-    simp only [outcomeOf, outcome, addUA_id]
-    rw [extractWire_id hs (by intro k hk; cases hk) he]
-    rfl
-
-theorem mapStep_id {cfg : Cfg} (hs : Sane cfg) (f2i : Nat → Int) (m : Meta) (kv : String × Val) :
-    (mapStep cfg f2i m kv).id = specStep cfg m.id kv := by
-  obtain ⟨k, v⟩ := kv
-  unfold mapStep
-  simp only
-  cases hk : tableKind k with
-  | none =>
-    have h1 : k ≠ kTid := by intro e; rw [e, kind_kTid] at hk; cases hk
-    have h2 : k ≠ kSig := by intro e; rw [e, kind_kSig] at hk; cases hk
-    have h3 : k ≠ kRoot := by intro e; rw [e, kind_kRoot] at hk; cases hk
-    have h4 : k ≠ kProbe := by intro e; rw [e, kind_kProbe] at hk; cases hk
-    unfold specStep
-    simp only [h1, h2, h3, h4, if_false]
-    by_cases c1 : m.id.tid = "" ∧ k ∈ cfg.tn
-    · cases v <;> simp [c1]
-      rename_i x
-      by_cases c3 : x = ""
-      · simp [c3]
-        obtain ⟨i, o⟩ := m
-        obtain ⟨t, sg, r, pr⟩ := i
-        simp at c1
-        simp [c1.1]
-      · simp [c3]
-    · by_cases c2 : k ∈ cfg.pn
-      · cases v <;> simp [c1, c2]
-        rename_i x
-        by_cases c3 : x = "" <;> simp [c3]
-      · cases v <;> simp [c1, c2]
-  | some kd =>
-    have hn1 : k ∉ cfg.tn := fun hm => by have := hs k (Or.inl hm); rw [this] at hk; cases hk
-    have hn2 : k ∉ cfg.pn := fun hm => by have := hs k (Or.inr (Or.inl hm)); rw [this] at hk; cases hk
-    have hspecElse := specElse_not_cfg hn1 hn2 m.id v
-    obtain ⟨n1, n2, n3, n4, n5, n6, _⟩ := keys_ne
-    by_cases e1 : k = kTid
-    · subst e1
-      have : kd = .str := by rw [kind_kTid] at hk; cases hk; rfl
-      subst this
-      cases v <;> simp [typedSet, put_id, idPut, specStep]
-    · by_cases e2 : k = kSig
-      · subst e2
-        have : kd = .str := by rw [kind_kSig] at hk; cases hk; rfl
-        subst this
-        cases v <;> simp [typedSet, put_id, idPut, specStep, Ne.symm n1]
-      · by_cases e3 : k = kRoot
-        · subst e3
-          have : kd = .bool := by rw [kind_kRoot] at hk; cases hk; rfl
-          subst this
-          cases v <;> simp [typedSet, put_id, idPut, specStep, Ne.symm n2, Ne.symm n4]
-        · by_cases e4 : k = kProbe
-          · subst e4
-            have : kd = .bool := by rw [kind_kProbe] at hk; cases hk; rfl
-            subst this
-            cases v <;> simp [typedSet, put_id, idPut, specStep, Ne.symm n3, Ne.symm n5, Ne.symm n6]
-          · have hput : ∀ mv, idPut m.id k mv = m.id := by intro mv; simp [idPut, e1, e2, e3, e4]
-            have hspec : specStep cfg m.id (k, v) = m.id := by
-              unfold specStep
-              simp only [e1, e2, e3, e4, if_false]
-              exact hspecElse
-            rw [hspec]
-            cases kd <;> cases v <;> simp [typedSet, put_id, hput]
-
-theorem mapFold_id {cfg : Cfg} (hs : Sane cfg) (f2i : Nat → Int) :
-    ∀ (ord : List (String × Val)) (m : Meta),
-      (ord.foldl (mapStep cfg f2i) m).id = specFold cfg m.id ord
-  | [], m => rfl
-  | kv :: t, m => by
-    simp only [List.foldl_cons, specFold]
-    rw [mapFold_id hs f2i t, mapStep_id hs]
-    rfl
-
-theorem map_ident {cfg : Cfg} (hs : Sane cfg) (f2i : Nat → Int) (ord : List (String × Val)) :
-    mapOutcome cfg f2i ord = outcomeId (identOf cfg ord) := by
-  unfold mapOutcome extractMap
-  simp only [addUA_extracted, addUA_raw, Bool.false_eq_true, if_false, List.isEmpty_nil, if_true]
-  simp only [outcomeOf, outcome, finishLog, mapFold_id hs, initRoot, addUA_id]
-  unfold identOf
-  simp [finishLogId]
-
-
-/-! ## `specStep` component by component (valid for sane configurations) -/
-
-def stepTid (cfg : Cfg) (s : IdSt) (k : String) (v : Val) : String :=
-  match v with
-  | .str x => if k = kTid then x else if s.tid = "" ∧ k ∈ cfg.tn then x else s.tid
-  | _ => s.tid
-
-def stepSig (s : IdSt) (k : String) (v : Val) : String :=
-  match v with
-  | .str x => if k = kSig then x else s.sig
-  | _ => s.sig
-
-def stepRoot (cfg : Cfg) (s : IdSt) (k : String) (v : Val) : Option Bool :=
-  match v with
-  | .bool b => if k = kRoot then some b else s.root
-  | .str x => if k ∈ cfg.pn ∧ x ≠ "" ∧ ¬ (s.tid = "" ∧ k ∈ cfg.tn) then some false else s.root
-  | _ => s.root
-
-def stepProbe (s : IdSt) (k : String) (v : Val) : Option Bool :=
-  match v with
-  | .bool b => if k = kProbe then some b else s.probe
-  | _ => s.probe
-
-theorem sane_tn {cfg : Cfg} (hs : Sane cfg) {k : String} {kd : MKind} (hk : tableKind k = some kd) :
-    k ∉ cfg.tn := fun hm => by have := hs k (Or.inl hm); rw [this] at hk; cases hk
-
-theorem sane_pn {cfg : Cfg} (hs : Sane cfg) {k : String} {kd : MKind} (hk : tableKind k = some kd) :
-    k ∉ cfg.pn := fun hm => by have := hs k (Or.inr (Or.inl hm)); rw [this] at hk; cases hk
-
-theorem specStep_eq {cfg : Cfg} (hs : Sane cfg) (s : IdSt) (k : String) (v : Val) :
-    specStep cfg s (k, v) = ⟨stepTid cfg s k v, stepSig s k v, stepRoot cfg s k v, stepProbe s k v⟩ := by
-  have a1 := sane_tn hs kind_kTid
-  have a2 := sane_tn hs kind_kSig
-  have a3 := sane_tn hs kind_kRoot
-  have a4 := sane_tn hs kind_kProbe
-  have b1 := sane_pn hs kind_kTid
-  have b2 := sane_pn hs kind_kSig
-  have b3 := sane_pn hs kind_kRoot
-  have b4 := sane_pn hs kind_kProbe
-  obtain ⟨n1, n2, n3, n4, n5, n6, _⟩ := keys_ne
-  unfold specStep stepTid stepSig stepRoot stepProbe
-  simp only
-  by_cases e1 : k = kTid
-  · subst e1
-    cases v <;> simp [a1, b1, n1, n2, n3]
-  · by_cases e2 : k = kSig
-    · subst e2
-      cases v <;> simp [a2, b2, Ne.symm n1, n4, n5]
-    · by_cases e3 : k = kRoot
-      · subst e3
-        cases v <;> simp [a3, b3, Ne.symm n2, Ne.symm n4, n6]
-      · by_cases e4 : k = kProbe
-        · subst e4
-          cases v <;> simp [a4, b4, Ne.symm n3, Ne.symm n5, Ne.symm n6]
-        · cases v <;> simp [e1, e2, e3, e4]
-          rename_i x
-          by_cases c1 : s.tid = "" ∧ k ∈ cfg.tn
-          · simp [c1]
-          · by_cases c2 : k ∈ cfg.pn <;> by_cases c3 : x = "" <;> simp [c1, c2, c3]
-
-/-! ## Vocabulary of the property -/
-
-def keysOf (fs : List (String × Val)) : List String := fs.map (·.1)
-
-/-- `meta.trace_id` or a configured trace-ID field holds a non-empty string -/
-def Belongs (cfg : Cfg) (fs : List (String × Val)) : Prop :=
-  ∃ k x, (k = kTid ∨ k ∈ cfg.tn) ∧ (k, Val.str x) ∈ fs ∧ x ≠ ""
-
-/-- a configured trace-ID field holds the non-empty string `x` -/
-def Cand (cfg : Cfg) (fs : List (String × Val)) (x : String) : Prop :=
-  ∃ k, k ∈ cfg.tn ∧ (k, Val.str x) ∈ fs ∧ x ≠ ""
-
-/-- a configured parent-ID field holds a non-empty string -/
-def HasParent (cfg : Cfg) (fs : List (String × Val)) : Prop :=
-  ∃ k x, k ∈ cfg.pn ∧ (k, Val.str x) ∈ fs ∧ x ≠ ""
-
-/-- it is a log record -/
-def IsLog (fs : List (String × Val)) : Prop := (kSig, Val.str "log") ∈ fs
-
-def NoEmptyMetaTid (fs : List (String × Val)) : Prop := (kTid, Val.str "") ∉ fs
-
-def Disjoint (cfg : Cfg) : Prop := ∀ k, k ∈ cfg.tn → k ∉ cfg.pn
-
-/-- all trace-ID fields that are present agree (in particular: at most one is present) -/
-def Agree (cfg : Cfg) (fs : List (String × Val)) : Prop := ∀ x y, Cand cfg fs x → Cand cfg fs y → x = y
-
-/-- the string `meta.trace_id` holds -/
-def metaTid : List (String × Val) → Option String
-  | [] => none
-  | (k, v) :: t =>
-    match v with
-    | .str x => if k = kTid then some x else metaTid t
-    | _ => metaTid t
-
-/-- first non-empty string held by a configured trace-ID field, in **wire** order -/
-def wireFirst (cfg : Cfg) : List (String × Val) → String
-  | [] => ""
-  | (k, v) :: t =>
-    match v with
-    | .str x => if k ∈ cfg.tn ∧ x ≠ "" then x else wireFirst cfg t
-    | _ => wireFirst cfg t
-
-def strAt : List (String × Val) → String → Option String
-  | [], _ => none
-  | (k', v) :: t, k =>
-    match v with
-    | .str x => if k' = k ∧ x ≠ "" then some x else strAt t k
-    | _ => strAt t k
-
-/-- first non-empty string held by a configured trace-ID field, in **configured** order -/
-def firstConfigured : List String → List (String × Val) → String
-  | [], _ => ""
-  | k :: ks, fs =>
-    match strAt fs k with
-    | some x => x
-    | none => firstConfigured ks fs
-
-/-- the trace ID the property prescribes -/
-def specTid (cfg : Cfg) (fs : List (String × Val)) : String :=
-  match metaTid fs with
-  | some m => m
-  | none => firstConfigured cfg.tn fs
-
-/-- the trace ID the code computes on the wire-order paths -/
-def actualTid (cfg : Cfg) (fs : List (String × Val)) : String :=
-  match metaTid fs with
-  | some m => m
-  | none => wireFirst cfg fs
-
-theorem mem_keysOf {fs : List (String × Val)} {k : String} {v : Val} (h : (k, v) ∈ fs) : k ∈ keysOf fs :=
-  List.mem_map.mpr ⟨(k, v), h, rfl⟩
-
-theorem metaTid_some : ∀ {fs : List (String × Val)} {m : String}, metaTid fs = some m → (kTid, Val.str m) ∈ fs
-  | [], _, h => by simp [metaTid] at h
-  | (k, v) :: t, m, h => by
-    unfold metaTid at h
-    cases v with
-    | str x =>
-      simp only at h
-      split at h
-      · rename_i e; cases h; subst e; exact List.mem_cons_self
-      · exact List.mem_cons_of_mem _ (metaTid_some h)
-    | _ => exact List.mem_cons_of_mem _ (metaTid_some h)
-
-theorem metaTid_none : ∀ {fs : List (String × Val)}, metaTid fs = none → ∀ m, (kTid, Val.str m) ∉ fs
-  | [], _, m => by simp
-  | (k, v) :: t, h, m => by
-    unfold metaTid at h
-    intro hm
-    cases v with
-    | str x =>
-      simp only at h
-      split at h
-      · cases h
-      · rename_i e
-        rcases List.mem_cons.mp hm with e' | hm
-        · cases e'; exact e rfl
-        · exact metaTid_none h m hm
-    | _ =>
-      rcases List.mem_cons.mp hm with e' | hm
-      · cases e'
-      · exact metaTid_none h m hm
-
-theorem metaTid_not_key {fs : List (String × Val)} (h : kTid ∉ keysOf fs) : metaTid fs = none := by
-  cases hm : metaTid fs with
-  | none => rfl
-  | some m => exact absurd (mem_keysOf (metaTid_some hm)) h
-
-theorem wireFirst_cand (cfg : Cfg) : ∀ (fs : List (String × Val)), wireFirst cfg fs ≠ "" → Cand cfg fs (wireFirst cfg fs)
-  | [], h => by simp [wireFirst] at h
-  | (k, v) :: t, h => by
-    unfold wireFirst at h ⊢
-    cases v with
-    | str x =>
-      simp only at h ⊢
-      split
-      · rename_i c; exact ⟨k, c.1, List.mem_cons_self, c.2⟩
-      · rename_i c
-        simp only [c, if_false] at h
-        obtain ⟨k', h1, h2, h3⟩ := wireFirst_cand cfg t h
-        exact ⟨k', h1, List.mem_cons_of_mem _ h2, h3⟩
-    | _ =>
-      obtain ⟨k', h1, h2, h3⟩ := wireFirst_cand cfg t h
-      exact ⟨k', h1, List.mem_cons_of_mem _ h2, h3⟩
-
-theorem wireFirst_none (cfg : Cfg) : ∀ (fs : List (String × Val)), wireFirst cfg fs = "" → ∀ x, ¬ Cand cfg fs x
-  | [], _, x => by rintro ⟨k, _, hm, _⟩; simp at hm
-  | (k, v) :: t, h, x => by
-    unfold wireFirst at h
-    rintro ⟨k', h1, hm, h3⟩
-    cases v with
-    | str y =>
-      simp only at h
-      split at h
-      · rename_i c; exact c.2 h
-      · rename_i c
-        rcases List.mem_cons.mp hm with e | hm
-        · cases e; exact c ⟨h1, h3⟩
-        · exact wireFirst_none cfg t h x ⟨k', h1, hm, h3⟩
-    | _ =>
-      rcases List.mem_cons.mp hm with e | hm
-      · cases e
-      · exact wireFirst_none cfg t h x ⟨k', h1, hm, h3⟩
-
-theorem strAt_some : ∀ {fs : List (String × Val)} {k x : String}, strAt fs k = some x → (k, Val.str x) ∈ fs ∧ x ≠ ""
-  | [], _, _, h => by simp [strAt] at h
-  | (k', v) :: t, k, x, h => by
-    unfold strAt at h
-    cases v with
-    | str y =>
-      simp only at h
-      split at h
-      · rename_i c; cases h; obtain ⟨c1, c2⟩ := c; subst c1; exact ⟨List.mem_cons_self, c2⟩
-      · have := strAt_some h; exact ⟨List.mem_cons_of_mem _ this.1, this.2⟩
-    | _ => have := strAt_some h; exact ⟨List.mem_cons_of_mem _ this.1, this.2⟩
-
-theorem strAt_none : ∀ {fs : List (String × Val)} {k : String}, strAt fs k = none → ∀ x, (k, Val.str x) ∈ fs → x = ""
-  | [], _, _, x, hm => by simp at hm
-  | (k', v) :: t, k, h, x, hm => by
-    unfold strAt at h
-    cases v with
-    | str y =>
-      simp only at h
-      split at h
-      · cases h
-      · rename_i c
-        rcases List.mem_cons.mp hm with e | hm
-        · cases e
-          apply Classical.byContradiction
-          intro hx
-          exact c ⟨rfl, hx⟩
-        · exact strAt_none h x hm
-    | _ =>
-      rcases List.mem_cons.mp hm with e | hm
-      · cases e
-      · exact strAt_none h x hm
-
-theorem firstConfigured_cand (fs : List (String × Val)) : ∀ (ks : List String), firstConfigured ks fs ≠ "" →
-    ∃ k, k ∈ ks ∧ (k, Val.str (firstConfigured ks fs)) ∈ fs ∧ firstConfigured ks fs ≠ ""
-  | [], h => by simp [firstConfigured] at h
-  | k :: ks, h => by
-    unfold firstConfigured at h ⊢
-    cases hs : strAt fs k with
-    | some x =>
-      have := strAt_some hs
-      exact ⟨k, List.mem_cons_self, this.1, this.2⟩
-    | none =>
-      rw [hs] at h
-      simp only at h ⊢
-      obtain ⟨k', h1, h2, h3⟩ := firstConfigured_cand fs ks h
-      exact ⟨k', List.mem_cons_of_mem _ h1, h2, h3⟩
-
-theorem firstConfigured_none (fs : List (String × Val)) : ∀ (ks : List String), firstConfigured ks fs = "" →
-    ∀ k, k ∈ ks → ∀ x, (k, Val.str x) ∈ fs → x = ""
-  | [], _, k, hk, _, _ => by simp at hk
-  | k0 :: ks, h, k, hk, x, hm => by
-    unfold firstConfigured at h
-    cases hs : strAt fs k0 with
-    | some y =>
-      rw [hs] at h
-      simp only at h
-      exact absurd h (strAt_some hs).2
-    | none =>
-      rw [hs] at h
-      simp only at h
-      rcases List.mem_cons.mp hk with e | hk
-      · subst e; exact strAt_none hs x hm
-      · exact firstConfigured_none fs ks h k hk x hm
-
-/-- when the trace-ID fields present agree, wire order and configured order pick the same value -/
-theorem wireFirst_eq_configured {cfg : Cfg} {fs : List (String × Val)} (ha : Agree cfg fs) :
-    wireFirst cfg fs = firstConfigured cfg.tn fs := by
-  by_cases hw : wireFirst cfg fs = ""
-  · by_cases hc : firstConfigured cfg.tn fs = ""
-    · rw [hw, hc]
-    · obtain ⟨k, h1, h2, h3⟩ := firstConfigured_cand fs cfg.tn hc
-      exact absurd ⟨k, h1, h2, h3⟩ (wireFirst_none cfg fs hw _)
-  · have c1 := wireFirst_cand cfg fs hw
-    by_cases hc : firstConfigured cfg.tn fs = ""
-    · obtain ⟨k, h1, h2, h3⟩ := c1
-      exact absurd (firstConfigured_none fs cfg.tn hc k h1 _ h2) h3
-    · obtain ⟨k, h1, h2, h3⟩ := firstConfigured_cand fs cfg.tn hc
-      exact ha _ _ c1 ⟨k, h1, h2, h3⟩
-
-/-! ## What `specFold` computes -/
-
-theorem specFold_cons (cfg : Cfg) (s : IdSt) (kv : String × Val) (t : List (String × Val)) :
-    specFold cfg s (kv :: t) = specFold cfg (specStep cfg s kv) t := rfl
-
-theorem tid_char {cfg : Cfg} (hs : Sane cfg) : ∀ (fs : List (String × Val)) (s : IdSt),
-    (keysOf fs).Nodup → NoEmptyMetaTid fs →
-    (specFold cfg s fs).tid =
-      match metaTid fs with
-      | some m => m
-      | none => if s.tid = "" then wireFirst cfg fs else s.tid
-  | [], s, _, _ => by
-    simp only [specFold, List.foldl_nil, metaTid, wireFirst]
-    split <;> simp_all
-  | (k, v) :: t, s, hnd, hne => by
-    have hnd' : (keysOf t).Nodup := (List.nodup_cons.mp hnd).2
-    have hk : k ∉ keysOf t := (List.nodup_cons.mp hnd).1
-    have hne' : NoEmptyMetaTid t := fun h => hne (List.mem_cons_of_mem _ h)
-    have ih := tid_char hs t (specStep cfg s (k, v)) hnd' hne'
-    rw [specFold_cons, ih, specStep_eq hs]
-    simp only
-    by_cases e1 : k = kTid
-    · subst e1
-      have hm : metaTid t = none := metaTid_not_key hk
-      cases v with
-      | str x =>
-        have hx : x ≠ "" := by
-          intro e; apply hne; rw [e]; exact List.mem_cons_self
-        simp [metaTid, stepTid, hm, hx]
-      | _ => (simp [metaTid, stepTid, wireFirst, hm]; try (by_cases c0 : s.tid = "" <;> simp [c0]))
-    · cases v with
-      | str x =>
-        simp only [metaTid, e1, if_false, stepTid, wireFirst]
-        cases hmt : metaTid t with
-        | some m => rfl
-        | none =>
-          simp only
-          by_cases c1 : s.tid = "" <;> by_cases c2 : k ∈ cfg.tn <;> by_cases c3 : x = "" <;> simp [c1, c2, c3]
-      | _ => (cases hmt : metaTid t <;> simp [metaTid, stepTid, wireFirst, hmt]) <;> try (by_cases c0 : s.tid = "" <;> simp [c0])
-
-def headParent (cfg : Cfg) (k : String) (v : Val) : Bool :=
-  match v with
-  | .str x => decide (k ∈ cfg.pn ∧ x ≠ "")
-  | _ => false
-
-def hasParentB (cfg : Cfg) (fs : List (String × Val)) : Bool := fs.any fun kv => headParent cfg kv.1 kv.2
-
-theorem hasParentB_cons (cfg : Cfg) (k : String) (v : Val) (t : List (String × Val)) :
-    hasParentB cfg ((k, v) :: t) = (headParent cfg k v || hasParentB cfg t) := rfl
-
-theorem hasParentB_iff (cfg : Cfg) (fs : List (String × Val)) : hasParentB cfg fs = true ↔ HasParent cfg fs := by
-  unfold hasParentB HasParent
-  rw [List.any_eq_true]
-  constructor
-  · rintro ⟨⟨k, v⟩, hm, h⟩
-    cases v <;> simp [headParent] at h
-    rename_i x
-    exact ⟨k, x, h.1, hm, h.2⟩
-  · rintro ⟨k, x, h1, hm, h2⟩
-    exact ⟨(k, Val.str x), hm, by simp [headParent, h1, h2]⟩
-
-theorem root_char {cfg : Cfg} (hs : Sane cfg) (hd : Disjoint cfg) : ∀ (fs : List (String × Val)) (s : IdSt),
-    kRoot ∉ keysOf fs →
-    (specFold cfg s fs).root = if hasParentB cfg fs = true then some false else s.root
-  | [], s, _ => by simp [specFold, hasParentB]
-  | (k, v) :: t, s, hk => by
-    have hk1 : k ≠ kRoot := fun e => hk (by rw [← e]; exact List.mem_cons_self)
-    have hk' : kRoot ∉ keysOf t := fun h => hk (List.mem_cons_of_mem _ h)
-    have ih := root_char hs hd t (specStep cfg s (k, v)) hk'
-    rw [specFold_cons, ih, specStep_eq hs, hasParentB_cons]
-    simp only
-    cases hp : hasParentB cfg t
-    · simp only [Bool.or_false]
-      cases v with
-      | str x =>
-        by_cases c : k ∈ cfg.pn ∧ x ≠ ""
-        · have hn : k ∉ cfg.tn := fun h => hd k h c.1
-          simp [headParent, stepRoot, c.1, c.2, hn]
-        · have hc : ¬ (k ∈ cfg.pn ∧ x ≠ "" ∧ ¬ (s.tid = "" ∧ k ∈ cfg.tn)) := fun h => c ⟨h.1, h.2.1⟩
-          simp only [headParent, stepRoot, hc, c, if_false, decide_false]
-      | bool b => simp [headParent, stepRoot, hk1]
-      | _ => simp [headParent, stepRoot]
-    · simp
-
-theorem sig_frame {cfg : Cfg} (hs : Sane cfg) : ∀ (fs : List (String × Val)) (s : IdSt),
-    kSig ∉ keysOf fs → (specFold cfg s fs).sig = s.sig
-  | [], s, _ => rfl
-  | (k, v) :: t, s, hk => by
-    have hk1 : k ≠ kSig := fun e => hk (by rw [← e]; exact List.mem_cons_self)
-    have hk' : kSig ∉ keysOf t := fun h => hk (List.mem_cons_of_mem _ h)
-    rw [specFold_cons, sig_frame hs t _ hk', specStep_eq hs]
-    cases v <;> simp [stepSig, hk1]
-
-theorem probe_frame {cfg : Cfg} (hs : Sane cfg) : ∀ (fs : List (String × Val)) (s : IdSt),
-    kProbe ∉ keysOf fs → (specFold cfg s fs).probe = s.probe
-  | [], s, _ => rfl
-  | (k, v) :: t, s, hk => by
-    have hk1 : k ≠ kProbe := fun e => hk (by rw [← e]; exact List.mem_cons_self)
-    have hk' : kProbe ∉ keysOf t := fun h => hk (List.mem_cons_of_mem _ h)
-    rw [specFold_cons, probe_frame hs t _ hk', specStep_eq hs]
-    cases v <;> simp [stepProbe, hk1]
-
-theorem sig_char {cfg : Cfg} (hs : Sane cfg) : ∀ (fs : List (String × Val)) (s : IdSt),
-    (keysOf fs).Nodup →
-    ((specFold cfg s fs).sig = "log" ↔ (IsLog fs ∨ (s.sig = "log" ∧ ∀ x, (kSig, Val.str x) ∉ fs)))
-  | [], s, _ => by simp [specFold, IsLog]
-  | (k, v) :: t, s, hnd => by
-    have hnd' : (keysOf t).Nodup := (List.nodup_cons.mp hnd).2
-    have hk : k ∉ keysOf t := (List.nodup_cons.mp hnd).1
-    by_cases e : k = kSig
-    · subst e
-      have hno : ∀ w, (kSig, w) ∉ t := fun w hm => hk (mem_keysOf hm)
-      rw [specFold_cons, sig_frame hs t _ hk, specStep_eq hs]
-      simp only [IsLog, List.mem_cons]
-      cases v with
-      | str x =>
-        simp only [stepSig, if_true]
-        constructor
-        · intro h; subst h; exact Or.inl (Or.inl rfl)
-        · rintro (h | h)
-          · rcases h with h | h
-            · cases h; rfl
-            · exact absurd h (hno _)
-          · exact absurd (Or.inl rfl) (h.2 x)
-      | _ =>
-        simp only [stepSig]
-        constructor
-        · intro h
-          refine Or.inr ⟨h, fun x hm => ?_⟩
-          rcases hm with hm | hm
-          · cases hm
-          · exact hno _ hm
-        · rintro (h | h)
-          · rcases h with h | h
-            · cases h
-            · exact absurd h (hno _)
-          · exact h.1
-    · have ih := sig_char hs t (specStep cfg s (k, v)) hnd'
-      rw [specFold_cons, ih, specStep_eq hs]
-      have hs1 : stepSig s k v = s.sig := by cases v <;> simp [stepSig, e]
-      simp only [hs1, IsLog, List.mem_cons]
-      have hne : ∀ w, (kSig, w) ≠ (k, v) := fun w h => e (by cases h; rfl)
-      constructor
-      · rintro (h | h)
-        · exact Or.inl (Or.inr h)
-        · refine Or.inr ⟨h.1, fun x hm => ?_⟩
-          rcases hm with hm | hm
-          · exact hne _ hm
-          · exact h.2 x hm
-      · rintro (h | h)
-        · rcases h with h | h
-          · exact absurd h (hne _)
-          · exact Or.inl h
-        · exact Or.inr ⟨h.1, fun x hm => h.2 x (Or.inr hm)⟩
-
-
-/-! ## The property, on the identity state every path ends with -/
-
-theorem finishLogId_tid (s : IdSt) : (finishLogId s).tid = s.tid := by unfold finishLogId; split <;> rfl
-theorem finishLogId_probe (s : IdSt) : (finishLogId s).probe = s.probe := by unfold finishLogId; split <;> rfl
-theorem finishLogId_root (s : IdSt) : (finishLogId s).root = if s.sig = "log" then none else s.root := by
-  unfold finishLogId; split <;> simp [*]
-
-theorem ident_tid {cfg : Cfg} (hs : Sane cfg) {fs : List (String × Val)} (hnd : (keysOf fs).Nodup)
-    (hne : NoEmptyMetaTid fs) : (identOf cfg fs).tid = actualTid cfg fs := by
-  unfold identOf actualTid
-  rw [finishLogId_tid, tid_char hs fs _ hnd hne]
-  cases metaTid fs <;> simp [initRootId]
-
-theorem ident_probe {cfg : Cfg} (hs : Sane cfg) {fs : List (String × Val)} (hp : kProbe ∉ keysOf fs) :
-    (identOf cfg fs).probe = none := by
-  unfold identOf
-  rw [finishLogId_probe, probe_frame hs fs _ hp]
-  rfl
-
-theorem ident_root {cfg : Cfg} (hs : Sane cfg) (hd : Disjoint cfg) {fs : List (String × Val)}
-    (hnd : (keysOf fs).Nodup) (hr : kRoot ∉ keysOf fs) :
-    (identOf cfg fs).root = some true ↔ (¬ HasParent cfg fs ∧ ¬ IsLog fs) := by
-  unfold identOf
-  rw [finishLogId_root, root_char hs hd fs _ hr]
-  have hsig := sig_char hs fs (initRootId {}) hnd
-  have h0 : (initRootId ({} : IdSt)).sig ≠ "log" := by decide
-  have h1 : (initRootId ({} : IdSt)).root = some true := rfl
-  rw [h1]
-  rw [← hasParentB_iff]
-  by_cases hl : (specFold cfg (initRootId {}) fs).sig = "log"
-  · have : IsLog fs := by
-      rcases hsig.mp hl with h | h
-      · exact h
-      · exact absurd h.1 h0
-    simp [hl, this]
-  · have : ¬ IsLog fs := fun h => hl (hsig.mpr (Or.inl h))
-    cases hp : hasParentB cfg fs <;> simp [hl, this]
-
-theorem outcomeId_span {i : IdSt} {t : String} {r : Bool} :
-    outcomeId i = .span t r ↔ (i.probe ≠ some true ∧ i.tid = t ∧ t ≠ "" ∧ r = i.root.getD false) := by
-  unfold outcomeId
-  by_cases hp : i.probe = some true
-  · simp [hp]
-  · by_cases ht : i.tid = ""
-    · simp only [hp, ht, if_false, if_true]
-      constructor
-      · intro h; cases h
-      · rintro ⟨_, h1, h2, _⟩; exact absurd h1.symm h2
-    · simp only [hp, ht, if_false]
-      constructor
-      · intro h; injection h with h1 h2; exact ⟨hp, h1, h1 ▸ ht, h2.symm⟩
-      · rintro ⟨_, h1, _, h3⟩; rw [h1, h3]
-
-theorem core_tid {cfg : Cfg} (hs : Sane cfg) {fs : List (String × Val)} (hnd : (keysOf fs).Nodup)
-    (hne : NoEmptyMetaTid fs) {tid : String} {r : Bool} (h : outcomeId (identOf cfg fs) = .span tid r) :
-    tid = actualTid cfg fs := by
-  rw [← ident_tid hs hnd hne]
-  exact (outcomeId_span.mp h).2.1.symm
-
-theorem actual_eq_spec {cfg : Cfg} {fs : List (String × Val)} (ha : Agree cfg fs) :
-    actualTid cfg fs = specTid cfg fs := by
-  unfold actualTid specTid
-  rw [wireFirst_eq_configured ha]
-
-theorem core_belongs {cfg : Cfg} (hs : Sane cfg) {fs : List (String × Val)} (hnd : (keysOf fs).Nodup)
-    (hne : NoEmptyMetaTid fs) (hp : kProbe ∉ keysOf fs) :
-    (∃ t r, outcomeId (identOf cfg fs) = .span t r) ↔ Belongs cfg fs := by
-  have htid := ident_tid hs hnd hne
-  have hprobe := ident_probe hs hp
-  constructor
-  · rintro ⟨t, r, h⟩
-    obtain ⟨_, h1, h2, _⟩ := outcomeId_span.mp h
-    rw [htid] at h1
-    unfold actualTid at h1
-    cases hm : metaTid fs with
-    | some m =>
-      rw [hm] at h1
-      simp only at h1
-      subst h1
-      exact ⟨kTid, m, Or.inl rfl, metaTid_some hm, h2⟩
-    | none =>
-      rw [hm] at h1
-      simp only at h1
-      obtain ⟨k, a, b, c⟩ := wireFirst_cand cfg fs (h1 ▸ h2)
-      exact ⟨k, _, Or.inr a, b, c⟩
-  · rintro ⟨k, x, hk, hm, hx⟩
-    have hne' : actualTid cfg fs ≠ "" := by
-      unfold actualTid
-      cases hmt : metaTid fs with
-      | some m =>
-        simp only
-        intro e
-        subst e
-        exact hne (metaTid_some hmt)
-      | none =>
-        simp only
-        intro e
-        rcases hk with rfl | hk
-        · exact metaTid_none hmt x hm
-        · exact wireFirst_none cfg fs e x ⟨k, hk, hm, hx⟩
-    exact ⟨_, _, outcomeId_span.mpr ⟨by rw [hprobe]; simp, htid, hne', rfl⟩⟩
-
-theorem core_root {cfg : Cfg} (hs : Sane cfg) (hd : Disjoint cfg) {fs : List (String × Val)}
-    (hnd : (keysOf fs).Nodup) (hne : NoEmptyMetaTid fs) (hr : kRoot ∉ keysOf fs) (hp : kProbe ∉ keysOf fs) :
-    (∃ t, outcomeId (identOf cfg fs) = .span t true) ↔ (Belongs cfg fs ∧ ¬ HasParent cfg fs ∧ ¬ IsLog fs) := by
-  have hroot := ident_root hs hd hnd hr
-  constructor
-  · rintro ⟨t, h⟩
-    refine ⟨(core_belongs hs hnd hne hp).mp ⟨t, true, h⟩, hroot.mp ?_⟩
-    have h4 := (outcomeId_span.mp h).2.2.2
-    cases hrt : (identOf cfg fs).root with
-    | none => rw [hrt] at h4; simp at h4
-    | some b => rw [hrt] at h4; simp at h4; rw [h4]
-  · rintro ⟨hb, hrest⟩
-    obtain ⟨t, r, h⟩ := (core_belongs hs hnd hne hp).mpr hb
-    have h4 := (outcomeId_span.mp h).2.2.2
-    rw [hroot.mpr hrest] at h4
-    simp at h4
-    subst h4
-    exact ⟨t, h⟩
-
-theorem core_log {cfg : Cfg} (hs : Sane cfg) {fs : List (String × Val)} (hnd : (keysOf fs).Nodup)
-    (hl : IsLog fs) (t : String) : outcomeId (identOf cfg fs) ≠ .span t true := by
-  intro h
-  have h4 := (outcomeId_span.mp h).2.2.2
-  have : (identOf cfg fs).root = none := by
-    unfold identOf
-    rw [finishLogId_root, if_pos ((sig_char hs fs _ hnd).mpr (Or.inl hl))]
-  rw [this] at h4
-  simp at h4
+open Refinery Refinery.Model.Payload Refinery.Lemmas.Payload
 
 /-! ## The property theorems, per ingestion path
 
@@ -1121,6 +196,84 @@ theorem belongs_iff_map_refuted : ¬ BelongsIffMap := by
   have h2 : mapOutcome cfgW (fun _ => 0) erasedW = .nonspan := by decide
   rw [h2] at ht
   cases ht
+
+/-! ## The repaired variants: the full statements hold
+
+`Fixed` (Model/Payload.lean) has one flag per repair of `types/payload.go`; the oracle runs the `…F`
+functions with `fixedNow`.  With no flag set they are the functions above (first three theorems), so
+everything above is about the code as it was; the theorems below are about the code with repair 01
+(`emptyMetaTid`: an empty `meta.trace_id` erases nothing) resp. 02 (`configuredOrder`: the first
+*configured* trace-ID field wins, on every path, independent of wire / Go-map order). -/
+
+theorem fixed_none_wire (cfg : Cfg) (fs : List (String × Val)) : wireOutcomeF {} cfg fs = wireOutcome cfg fs := rfl
+theorem fixed_none_otlp (cfg : Cfg) (fs : List (String × Val)) : metaOnlyOutcomeF {} cfg fs = metaOnlyOutcome cfg fs := rfl
+theorem fixed_none_map (cfg : Cfg) (f2i : Nat → Int) (ord : List (String × Val)) :
+    mapOutcomeF {} cfg f2i ord = mapOutcome cfg f2i ord := rfl
+
+/-- **belongs_iff, full statement, with repair 01** (with or without 02) — `BelongsIff` for the
+repaired `/1/batch` path: no hypothesis about empty `meta.trace_id` values any more. -/
+theorem belongs_iff_fixed {fx : Fixed} (he : fx.emptyMetaTid = true) (cfg : Cfg) (fs : List (String × Val))
+    (hs : Sane cfg) (_hnd : (keysOf fs).Nodup) (hp : kProbe ∉ keysOf fs) (herr : wireOutcomeF fx cfg fs ≠ .err) :
+    (∃ t r, wireOutcomeF fx cfg fs = .span t r) ↔ Belongs cfg fs := by
+  have hr : Repaired fx := by simp [Repaired, he]
+  rw [wireF_ident hr hs herr]; exact identN_belongs he hs hp
+
+theorem belongs_iff_fixed_otlp {fx : Fixed} (he : fx.emptyMetaTid = true) (cfg : Cfg) (fs : List (String × Val))
+    (hs : Sane cfg) (_hnd : (keysOf fs).Nodup) (hp : kProbe ∉ keysOf fs) (herr : metaOnlyOutcomeF fx cfg fs ≠ .err) :
+    (∃ t r, metaOnlyOutcomeF fx cfg fs = .span t r) ↔ Belongs cfg fs := by
+  have hr : Repaired fx := by simp [Repaired, he]
+  rw [metaOnlyF_ident hr hs herr]; exact identN_belongs he hs hp
+
+/-- `BelongsIffMap` for the repaired `/1/events` path, for every iteration order -/
+theorem belongs_iff_fixed_map {fx : Fixed} (he : fx.emptyMetaTid = true) (cfg : Cfg) (f2i : Nat → Int)
+    (ord : List (String × Val)) (hs : Sane cfg) (hnd : (keysOf ord).Nodup) (hp : kProbe ∉ keysOf ord) :
+    (∃ t r, mapOutcomeF fx cfg f2i ord = .span t r) ↔ Belongs cfg ord := by
+  have hr : Repaired fx := by simp [Repaired, he]
+  rw [mapF_ident hr hs]; exact identM_belongs he hs hnd hp
+
+/-- **trace_id_configured_order, full statement, with repair 02** — `TraceIdConfiguredOrder` for the
+repaired `/1/batch` path: the trace ID is `meta.trace_id` if present, otherwise the value of the
+first configured trace-ID field holding a non-empty string, whatever the order on the wire. -/
+theorem trace_id_configured_order_fixed {fx : Fixed} (hc : fx.configuredOrder = true) (cfg : Cfg)
+    (fs : List (String × Val)) (tid : String) (r : Bool) (hs : Sane cfg) (hnd : (keysOf fs).Nodup)
+    (hne : NoEmptyMetaTid fs) (h : wireOutcomeF fx cfg fs = .span tid r) : tid = specTid cfg fs := by
+  have hr : Repaired fx := by simp [Repaired, hc]
+  have herr : wireOutcomeF fx cfg fs ≠ .err := by rw [h]; intro e; cases e
+  rw [wireF_ident hr hs herr] at h
+  rw [← identN_tid hc hnd hne]
+  exact (outcomeId_span.mp h).2.1.symm
+
+theorem trace_id_configured_order_fixed_otlp {fx : Fixed} (hc : fx.configuredOrder = true) (cfg : Cfg)
+    (fs : List (String × Val)) (tid : String) (r : Bool) (hs : Sane cfg) (hnd : (keysOf fs).Nodup)
+    (hne : NoEmptyMetaTid fs) (h : metaOnlyOutcomeF fx cfg fs = .span tid r) : tid = specTid cfg fs := by
+  have hr : Repaired fx := by simp [Repaired, hc]
+  have herr : metaOnlyOutcomeF fx cfg fs ≠ .err := by rw [h]; intro e; cases e
+  rw [metaOnlyF_ident hr hs herr] at h
+  rw [← identN_tid hc hnd hne]
+  exact (outcomeId_span.mp h).2.1.symm
+
+/-- `TraceIdConfiguredOrderMap` for the repaired `/1/events` path: the same value for **every**
+iteration order of the Go map -/
+theorem trace_id_configured_order_fixed_map {fx : Fixed} (hc : fx.configuredOrder = true) (cfg : Cfg)
+    (f2i : Nat → Int) (ord : List (String × Val)) (tid : String) (r : Bool) (hs : Sane cfg)
+    (hnd : (keysOf ord).Nodup) (hne : NoEmptyMetaTid ord) (h : mapOutcomeF fx cfg f2i ord = .span tid r) :
+    tid = specTid cfg ord := by
+  have hr : Repaired fx := by simp [Repaired, hc]
+  rw [mapF_ident hr hs] at h
+  rw [← identM_tid hc hnd hne]
+  exact (outcomeId_span.mp h).2.1.symm
+
+/-! the witnesses of the refutations, on the repaired variants -/
+example : wireOutcomeF { emptyMetaTid := true } cfgW erasedW = .span "abc" true := by decide
+example : mapOutcomeF { emptyMetaTid := true } cfgW (fun _ => 0) erasedW = .span "abc" true := by decide
+example : wireOutcomeF { emptyMetaTid := true, configuredOrder := true } cfgW erasedW = .span "abc" true := by decide
+example : wireOutcomeF { emptyMetaTid := true, configuredOrder := true } cfgW swappedW = .span "1" true := by decide
+example : metaOnlyOutcomeF { emptyMetaTid := true, configuredOrder := true } cfgW swappedW = .span "1" true := by decide
+example : mapOutcomeF { emptyMetaTid := true, configuredOrder := true } cfgW (fun _ => 0) swappedW = .span "1" true := by decide
+example : mapOutcomeF { emptyMetaTid := true, configuredOrder := true } cfgW (fun _ => 0)
+    [("trace.trace_id", .str "1"), ("traceId", .str "2")] = .span "1" true := by decide
+example : wireOutcomeF { emptyMetaTid := true, configuredOrder := true } cfgW
+    [("traceId", .str "2"), ("trace.parent_id", .str "p"), (kTid, .str "m")] = .span "m" false := by decide
 
 /-! ## Non-vacuity: concrete events, evaluated by the kernel -/
 
